@@ -54,6 +54,16 @@ def checkFrame (fixed : Nat) (frame : List Nat) : Option (List Nat) :=
     else if body.length < fixed then none
     else some body
 
+/-- `DataView::using` since fix D35, for a message type whose archived root has `fixed` bytes and
+needs the alignment `align`: the root sits at the end of the body, in a buffer whose start is
+aligned for every type (`AlignedVec`: 16), so its position `body.length - fixed` must be a multiple
+of `align` - otherwise no reference to it may be formed and the frame is refused.  (`checkFrame`
+above is the check before that fix: checksum and minimum length only.) -/
+def checkFrameA (fixed align : Nat) (frame : List Nat) : Option (List Nat) :=
+  match checkFrame fixed frame with
+  | none => none
+  | some body => if (body.length - fixed) % align = 0 then some body else none
+
 /-- `DataView::using` of the pinned tree: no length guard before `archived_root`. -/
 def checkFrameLegacy (_fixed : Nat) (frame : List Nat) : Option (List Nat) :=
   if frame.length < 4 then none
